@@ -37,6 +37,27 @@ pub fn render_prog(p: &Value) -> String {
     arr(p).iter().map(render_insn).collect::<Vec<_>>().join("\n")
 }
 
+/// The same abstract program in the other layouts the documented grammar admits (the mnemonic is
+/// followed by white space, operands are separated by a comma followed by optional white space,
+/// instructions by any white space; white space may lead and trail):
+///   1 indented, tab after the mnemonic, two blanks after commas, trailing blanks, blank lines
+///   2 no blank after commas          3 the whole program on one line
+///   4 a line break after every comma, CR LF line ends
+pub fn render_prog_style(p: &Value, style: u32) -> String {
+    let insns: Vec<(String, Vec<String>)> = arr(p).iter()
+        .map(|i| (i["mn"].as_str().unwrap().to_string(), arr(&i["ops"]).iter().map(render_op).collect())).collect();
+    let one = |mn: &String, ops: &Vec<String>, after_mn: &str, sep: &str| {
+        if ops.is_empty() { mn.clone() } else { format!("{mn}{after_mn}{}", ops.join(sep)) }
+    };
+    match style {
+        1 => insns.iter().map(|(m, o)| format!("  {}  ", one(m, o, "\t", ",  "))).collect::<Vec<_>>().join("\n\n") + "\n",
+        2 => insns.iter().map(|(m, o)| one(m, o, " ", ",")).collect::<Vec<_>>().join("\n"),
+        3 => insns.iter().map(|(m, o)| one(m, o, " ", ", ")).collect::<Vec<_>>().join(" "),
+        4 => insns.iter().map(|(m, o)| one(m, o, " ", ",\r\n    ")).collect::<Vec<_>>().join("\r\n"),
+        _ => render_prog(p),
+    }
+}
+
 fn asm(text: &str) -> Value {
     match std::panic::catch_unwind(|| rbpf::assembler::assemble(text)) {
         Ok(Ok(b)) => json!({"k": "ok", "bytes": bytes_json(&b)}),
@@ -63,7 +84,11 @@ pub fn run_text(rec: &Value) -> Value {
     match rec["kind"].as_str().unwrap() {
         "asm" => {
             let text = render_prog(&rec["prog"]);
-            json!({"text": text, "asm": asm(&text)})
+            let styles: Vec<Value> = (1..=4u32).map(|st| {
+                let t = render_prog_style(&rec["prog"], st);
+                json!({"style": st, "text": t, "asm": asm(&t)})
+            }).collect();
+            json!({"text": text, "asm": asm(&text), "styles": styles})
         }
         "disasm" => {
             let prog = bytes(&rec["bytes"]);
@@ -88,6 +113,13 @@ pub fn judge_text(rec: &Value, o: &Value) -> Vec<String> {
         "asm" => {
             if let Err(e) = same_asm(&rec["exp"], &o["asm"]) {
                 bad.push(format!("`{}`: {e}", o["text"].as_str().unwrap_or("").replace('\n', " ; ")));
+            }
+            // the same program in the other white-space layouts of the grammar: the same answer
+            for st in arr(&o["styles"]) {
+                if let Err(e) = same_asm(&rec["exp"], &st["asm"]) {
+                    bad.push(format!("white-space layout {} {:?}: {e}", st["style"], st["text"].as_str().unwrap_or("")));
+                    break;
+                }
             }
         }
         "disasm" => {
